@@ -18,6 +18,10 @@ corr
               character-level damage, prefixes.  Programs whose register has more than MAX_QUBITS qubits or whose loop counts
               exceed MAX_COUNT are parsed but not executed on either side (time / memory proportional to 2^n and to the counts).
 
+  well_formed : for every text of the streams above the model evaluates `ExpandMacros.WellFormed` (hypothesis `BuiltWellFormed` of
+              `C16_total_partial`) on the circuit `fill_in_let(expand_subcircuits(parse(text)), ov)`; expected `true` whenever the
+              real code gets that far, else the same failing stage (`parse` / `expand_subcircuits` / `fill_in_let`).
+
 oracle (the real code alone; every call of every stream below is watched by all of the first three)
   only_jaqalerror_or_importerror : an exception that is neither a JaqalError nor an ImportError escaped
   parse_error_has_position       : a JaqalParseError carries (line, column) of a token start of the text (real lexer, and the
@@ -312,6 +316,26 @@ def impl_run(w, case, text, gs, ov, stream):
     return {"ok": s}
 
 
+def impl_well_formed(text, gs, ov):
+    """how far the real code gets towards the input of expand_macros; reaching it, the expected model answer is `true`"""
+    def f():
+        try:
+            c = parse(text, gs)
+        except (JaqalError, ImportError):
+            return {"well_formed": None, "stage": "parse"}
+        try:
+            c1 = expand_subcircuits(c)
+        except JaqalError:
+            return {"well_formed": None, "stage": "expand_subcircuits"}
+        try:
+            fill_in_let(c1, override_dict=ov_dict(ov))
+        except JaqalError:
+            return {"well_formed": None, "stage": "fill_in_let"}
+        return {"well_formed": True}
+    v, e = watched(f)
+    return v if e is None else {"well_formed": None, "stage": "crash:" + type(e).__name__}
+
+
 def ftok(t):
     if t.startswith("f") and t.count(":") == 2:
         neg, mant, exp = t[1:].split(":")
@@ -344,6 +368,26 @@ def same_outcome(model, impl):
 
 def num_json(v):
     return dump.num(v)
+
+
+def safe_driver(driver, reqs):
+    """one batch; if the driver dies on it, the requests one by one (a request that kills the driver or takes more than
+    120 s is answered `{"driver_error": …}`, i.e. a disagreement)"""
+    try:
+        return C01.call_driver(driver, reqs)
+    except BaseException as e:  # noqa
+        if len(reqs) == 1:
+            return [{"driver_error": type(e).__name__ + ": " + str(e)[:200]}]
+    out = []
+    for r in reqs:
+        data = json.dumps(r) + "\n"
+        try:
+            proc = subprocess.run([driver], input=data, capture_output=True, text=True, timeout=120)
+            ans = json.loads(proc.stdout.splitlines()[0])
+            out.append(ans["out"] if "out" in ans else {"driver_error": ans.get("err", "?")})
+        except BaseException as e:  # noqa
+            out.append({"driver_error": type(e).__name__ + ": " + str(e)[:200]})
+    return out
 
 
 def model_req(text, gs, ov):
@@ -732,6 +776,8 @@ def check_call(w, call, pulse_path=None, stream="?"):
     return holder.get("out", {"err": "hang"})
 
 
+WF_STREAMS = {"runnable", "general", "runnable:no_gate_set", "general:no_gate_set", "token_damage", "edge"}
+
 FLAG_COMBOS = [dict(expand_macro=a, expand_let=b, expand_let_map=c, return_usepulses=d)
                for a in (False, True) for b in (False, True) for c in (False, True) for d in (False, True)]
 
@@ -770,7 +816,7 @@ def run(seed: int, n: int, driver: str = DEFAULT_DRIVER, thorough: bool = False)
     _imports()
     rng = random.Random(f"{seed}:c16")
     w = Watch()
-    corr = {"run_model": {"cases": 0, "disagreements": []}}
+    corr = {"run_model": {"cases": 0, "disagreements": []}, "well_formed": {"cases": 0, "disagreements": []}}
     samples = []
     nontrivial = set()
     reqs, expect = [], []
@@ -786,7 +832,12 @@ def run(seed: int, n: int, driver: str = DEFAULT_DRIVER, thorough: bool = False)
             w.dist["subcircuits:%s" % min(int(impl["ok"]["subcircuits"]), 5)] += 1
             w.dist["visits:%s" % min(len(impl["ok"]["visits"]), 8)] += 1
         reqs.append(model_req(text, gs, ov))
-        expect.append((case, impl))
+        expect.append(("run_model", case, impl))
+        if stream in WF_STREAMS:
+            wf = impl_well_formed(text, gs, ov)
+            w.dist["well_formed:" + ("reached" if wf.get("well_formed") else str(wf.get("stage")))] += 1
+            reqs.append(dict(model_req(text, gs, ov), op="well_formed"))
+            expect.append(("well_formed", case, wf))
         return impl
 
     valid_texts = []          # (text, gs, ov) of programs for the later streams
@@ -1014,15 +1065,15 @@ def run(seed: int, n: int, driver: str = DEFAULT_DRIVER, thorough: bool = False)
 
     # the model
     if driver:
-        for k in range(0, len(reqs), 1000):
-            answers = C01.call_driver(driver, reqs[k:k + 1000])
-            for (case, impl), model in zip(expect[k:k + 1000], answers):
-                corr["run_model"]["cases"] += 1
-                if not same_outcome(model, impl):
-                    if len(corr["run_model"]["disagreements"]) < 20:
-                        corr["run_model"]["disagreements"].append({"case": case, "model": model, "impl": impl})
+        for k in range(0, len(reqs), 250):
+            answers = safe_driver(driver, reqs[k:k + 250])
+            for (op, case, impl), model in zip(expect[k:k + 250], answers):
+                corr[op]["cases"] += 1
+                if not (same_outcome(model, impl) if op == "run_model" else model == impl):
+                    if len(corr[op]["disagreements"]) < 20:
+                        corr[op]["disagreements"].append({"case": dict(case, op=op), "model": model, "impl": impl})
                     else:
-                        corr["run_model"]["more_disagreements"] = corr["run_model"].get("more_disagreements", 0) + 1
+                        corr[op]["more_disagreements"] = corr[op].get("more_disagreements", 0) + 1
     return {"corr": corr, "oracle": w.oracle, "distribution": dict(sorted(w.dist.items())), "samples": samples,
             "nontrivial": len(nontrivial)}
 
@@ -1129,7 +1180,12 @@ def replay(case: dict, driver: str = DEFAULT_DRIVER) -> dict:
         impl = _deeper(int(case.get("extra_stack", 0)), lambda: check_call(w, call, pulse_path=pd.path, stream="replay"))
         model = None
         if kind == "run" and driver and "text" in case and "nest" not in case:
-            model = C01.call_driver(driver, [model_req(case["text"], case.get("gs", True), case.get("override") or [])])[0]
+            req = model_req(case["text"], case.get("gs", True), case.get("override") or [])
+            if case.get("op") == "well_formed":
+                model = C01.call_driver(driver, [dict(req, op="well_formed")])[0]
+                impl = impl_well_formed(case["text"], case.get("gs", True), case.get("override") or [])
+                return {"model": model, "impl": impl, "oracle_ok": None, "detail": "BuiltWellFormed on this text"}
+            model = C01.call_driver(driver, [req])[0]
         # the history oracles: the same call again, after failing calls, and in a fresh interpreter
         for f in failing_calls():
             canon_call(f, pd.path)
